@@ -31,6 +31,8 @@ From Coq Require Import NArith ZArith List Lia.
 From Mtbl Require Import gen.Consts model.Bytes model.Codec model.Order model.Block model.Crc model.Writer
   spec.Leb128 spec.Parse model.Reader proofs.BytesLemmas proofs.CodecProofs proofs.OrderProofs proofs.WriterProofs proofs.MetaProofs
   proofs.BlockRT proofs.TableRT proofs.ParseProofs proofs.ParseTable proofs.ParseSwitch.
+(* source ties: the statements of the C functions the model follows (gen/Ties.v is regenerated from /repo on every run) *)
+From Mtbl Require props.Ties_C09.
 Local Open Scope N_scope.
 
 Section C09.
